@@ -44,6 +44,9 @@ pub fn debug_cmd(args: &[String]) {
             rec(&db, root, 0);
             println!("{}", diags.format(&db));
         }
+        Some("c14felts") => {
+            c14::debug_felts();
+        }
         Some("cfg") => {
             use crate::core::exec::{FrontCfg, MetaCfg};
             let src = std::fs::read_to_string(&args[1]).unwrap();
